@@ -42,7 +42,12 @@ RULE = ('case = (device profile, operation, argument record). Operations: the 19
         'set, repeated calls, filters, edit-config options, the other standard operations and the profile\'s vendor operations; every call must do what the same call does FIRST on a fresh session of the same '
         'server (exception class, request tree), satisfy the single-call oracles with this server\'s advertised with-defaults set, and leave m.server_capabilities (URIs, namespace URI and parameters of every '
         'capability, against an independent split of the advertised URIs) untouched; the retrievals are also run through CallHistory.history (runner fn 13). One-shot iterables: the list arguments the vendor '
-        'classes iterate over (nexus exec_command cmds, alu get_configuration cli filter) given as generator / iterator / map / tuple must send what the list sends.')
+        'classes iterate over (nexus exec_command cmds, alu get_configuration cli filter) given as generator / iterator / map / tuple must send what the list sends. '
+        'Generic calls and kept bound callables (histories.py): steps {gen: method name that is no standard / vendor operation, pos: 0-3 positional arguments} on all 14 profiles (fixed histories on '
+        'default / junos / nexus / iosxe / alu) - one <rpc> with a single operation element named as the method with _ -> -, no attributes, whose children are exactly THIS call\'s arguments in order, '
+        'each empty; a name / argument that is no NCName is refused with nothing sent (sig generic_call_not_faithful). Any step (generic, standard, vendor) may go through the bound callable of its '
+        'method looked up ONCE on the manager and kept (f = m.request_system_snapshot; f(\'slice\'); f(\'media\', \'partition\'); f(); g = m.get_config kept and called with different sources / filters), '
+        'mixed with new lookups of the same name: every such call must send what a new lookup on a fresh manager sends (call_depends_on_history) and pass the single-call oracle.')
 ASSUMES = ['vendor classes: Python verdicts int(timeout) (junos commit) and bool(comment.strip()) (sros commit) are inputs of the model; caller fragments of vendor calls do not use the base namespace (that class is the open finding envelope_namespace_binding_shadowed, one explicit huawei case); junos timeouts within +-10^12 (binary64 division is exact there)',
            'the server advertises every capability (gating is C09); with-defaults lists the four RFC 6243 modes',
            'lxml verdicts on element names are oracle inputs (catalogue); documents are parsed for the model by the independent reader',
